@@ -270,8 +270,9 @@ func ruleC07_2(c *Ctx) {
 			// the call may only depend on the wrapped value being non-nil (and on nothing else that matters)
 			okGuard := true
 			for _, lit := range guardLits(ev.Guard) {
-				k := lit.Key()
-				if !strings.Contains(k, "nil") {
+				// "wrapped != nil" - a test of the very value the call is made on, with the right polarity: a
+				// test "== nil" forwards exactly when there is nothing to forward to.
+				if x, ok := nonNilTest(lit); !ok || len(ev.Args) == 0 || x.Key() != ev.Args[0].Key() {
 					okGuard = false
 				}
 			}
@@ -285,6 +286,27 @@ func ruleC07_2(c *Ctx) {
 				fmt.Sprintf("calls %s(%s) under %s", ev.Callee, argKeys(ev.Args[1:]), shortKey(ev.Guard)))
 		}
 	}
+}
+
+// nonNilTest recognises the literal "x != nil" (spelt not(x == nil) or x != nil, nil on either side) and returns x.
+func nonNilTest(lit *sym.Term) (*sym.Term, bool) {
+	isNil := func(t *sym.Term) bool { return t != nil && t.Op == "const" && t.C == nil }
+	cmp := func(t *sym.Term, op string) (*sym.Term, bool) {
+		if t == nil || t.Op != "bin" || t.Name != op || len(t.Args) != 2 {
+			return nil, false
+		}
+		switch {
+		case isNil(t.Args[1]) && !isNil(t.Args[0]):
+			return t.Args[0], true
+		case isNil(t.Args[0]) && !isNil(t.Args[1]):
+			return t.Args[1], true
+		}
+		return nil, false
+	}
+	if lit != nil && lit.Op == "not" && len(lit.Args) == 1 {
+		return cmp(lit.Args[0], "==")
+	}
+	return cmp(lit, "!=")
 }
 
 func argKeys(as []*sym.Term) string {
